@@ -44,7 +44,7 @@ type spec struct {
 	SyncOff bool `json:",omitempty"`
 }
 
-var moves = []string{"begin", "begin-immediate", "begin-exclusive", "write-small", "write-small", "write-spill", "cursor-open", "cursor-close", "r2-open", "r2-close", "commit", "commit", "rollback", "nothing",
+var moves = []string{"begin", "begin-immediate", "begin-exclusive", "write-small", "write-small", "write-spill", "write-ddl", "commit-begin-write", "commit-begin-write", "cursor-open", "cursor-close", "r2-open", "r2-close", "commit", "commit", "rollback", "nothing",
 	// another handle of THIS process parks inside a row callback (holding the
 	// process' SHARED lock, which blocks the writer's commit) / lets go
 	"own-hold", "own-hold", "own-release",
@@ -167,160 +167,194 @@ func run(r *vt.Run, t vt.TB, s spec) {
 
 	for _, st := range s.Steps {
 		// ---- move the writer
-		switch st.Move {
-		case "begin":
-			if !inTxn && do("w", "BEGIN") == nil {
-				inTxn = true
-			}
-		case "begin-immediate":
-			if !inTxn {
-				if err := do("w", "BEGIN IMMEDIATE"); err == nil {
+		applyMove := func(move string) {
+			switch move {
+			case "begin":
+				if !inTxn && do("w", "BEGIN") == nil {
 					inTxn = true
-					if level == "UNLOCKED" || level == "SHARED" {
-						level = "RESERVED"
-					}
-				} else if !busy(err) {
-					r.Harness(t, "begin immediate: %v", err)
 				}
-			}
-		case "begin-exclusive":
-			if !inTxn {
-				if err := do("w", "BEGIN EXCLUSIVE"); err == nil {
-					inTxn = true
-					level = "EXCLUSIVE"
-				} else if busy(err) {
-					// r2 reads: SQLite keeps PENDING? no: a failed BEGIN EXCLUSIVE releases everything
-				} else {
-					r.Harness(t, "begin exclusive: %v", err)
-				}
-			}
-		case "write-small":
-			if inTxn {
-				seq++
-				if err := do("w", fmt.Sprintf("INSERT INTO t (b, c) VALUES (%d, 'uncommitted%d')", seq, seq)); err == nil {
-					wrote = true
-					if level != "EXCLUSIVE" && level != "PENDING" {
-						level = "RESERVED"
-					}
-				} else if !busy(err) {
-					r.Harness(t, "write-small: %v", err)
-				}
-			}
-		case "write-spill":
-			if inTxn {
-				seq++
-				err := do("w", fmt.Sprintf("WITH RECURSIVE c(x) AS (SELECT 1 UNION ALL SELECT x+1 FROM c WHERE x < 400) INSERT INTO t (b, c) SELECT x, 'spill%d-'||hex(zeroblob(60)) FROM c", seq))
-				if err == nil {
-					wrote, spilled = true, true
-					level = "EXCLUSIVE"
-				} else if busy(err) {
-					// could not get EXCLUSIVE for the spill because r2 reads: statement rolled back
-				} else {
-					r.Harness(t, "write-spill: %v", err)
-				}
-			}
-		case "cursor-open":
-			if !cursorW {
-				if _, err := env.O.CursorOpen("w", "c", "SELECT a FROM t", 1); err == nil {
-					cursorW = true
-					if level == "UNLOCKED" {
-						level = "SHARED"
+			case "begin-immediate":
+				if !inTxn {
+					if err := do("w", "BEGIN IMMEDIATE"); err == nil {
+						inTxn = true
+						if level == "UNLOCKED" || level == "SHARED" {
+							level = "RESERVED"
+						}
+					} else if !busy(err) {
+						r.Harness(t, "begin immediate: %v", err)
 					}
 				}
-			}
-		case "cursor-close":
-			if cursorW {
-				env.O.CursorClose("w", "c")
-				cursorW = false
-			}
-		case "r2-open":
-			if !cursorR2 {
-				if _, err := env.O.CursorOpen("r2", "c", "SELECT a FROM t", 1); err == nil {
-					cursorR2 = true
-				} else if !busy(err) {
-					r.Harness(t, "r2 cursor: %v", err)
+			case "begin-exclusive":
+				if !inTxn {
+					if err := do("w", "BEGIN EXCLUSIVE"); err == nil {
+						inTxn = true
+						level = "EXCLUSIVE"
+					} else if busy(err) {
+						// r2 reads: SQLite keeps PENDING? no: a failed BEGIN EXCLUSIVE releases everything
+					} else {
+						r.Harness(t, "begin exclusive: %v", err)
+					}
 				}
-			}
-		case "r2-close":
-			if cursorR2 {
-				env.O.CursorClose("r2", "c")
-				cursorR2 = false
-			}
-		case "commit":
-			if inTxn {
+			case "write-small":
+				if inTxn {
+					seq++
+					if err := do("w", fmt.Sprintf("INSERT INTO t (b, c) VALUES (%d, 'uncommitted%d')", seq, seq)); err == nil {
+						wrote = true
+						if level != "EXCLUSIVE" && level != "PENDING" {
+							level = "RESERVED"
+						}
+					} else if !busy(err) {
+						r.Harness(t, "write-small: %v", err)
+					}
+				}
+			case "write-ddl":
+				// a row change and a schema change in one transaction (the commit
+				// moves the schema cookie as well as the change counter)
+				if inTxn {
+					seq++
+					err := do("w", fmt.Sprintf("INSERT INTO t (b, c) VALUES (%d, 'with-ddl%d')", seq, seq))
+					if err == nil {
+						err = do("w", fmt.Sprintf("CREATE INDEX ddl%d ON t (c, b)", seq))
+					}
+					if err == nil {
+						wrote = true
+						classes["writer-changes-schema"] = true
+						if level != "EXCLUSIVE" && level != "PENDING" {
+							level = "RESERVED"
+						}
+					} else if !busy(err) {
+						r.Harness(t, "write-ddl: %v", err)
+					}
+				}
+			case "write-spill":
+				if inTxn {
+					seq++
+					err := do("w", fmt.Sprintf("WITH RECURSIVE c(x) AS (SELECT 1 UNION ALL SELECT x+1 FROM c WHERE x < 400) INSERT INTO t (b, c) SELECT x, 'spill%d-'||hex(zeroblob(60)) FROM c", seq))
+					if err == nil {
+						wrote, spilled = true, true
+						level = "EXCLUSIVE"
+					} else if busy(err) {
+						// could not get EXCLUSIVE for the spill because r2 reads: statement rolled back
+					} else {
+						r.Harness(t, "write-spill: %v", err)
+					}
+				}
+			case "cursor-open":
+				if !cursorW {
+					if _, err := env.O.CursorOpen("w", "c", "SELECT a FROM t", 1); err == nil {
+						cursorW = true
+						if level == "UNLOCKED" {
+							level = "SHARED"
+						}
+					}
+				}
+			case "cursor-close":
 				if cursorW {
 					env.O.CursorClose("w", "c")
 					cursorW = false
 				}
-				err := do("w", "COMMIT")
-				switch {
-				case err == nil:
+			case "r2-open":
+				if !cursorR2 {
+					if _, err := env.O.CursorOpen("r2", "c", "SELECT a FROM t", 1); err == nil {
+						cursorR2 = true
+					} else if !busy(err) {
+						r.Harness(t, "r2 cursor: %v", err)
+					}
+				}
+			case "r2-close":
+				if cursorR2 {
+					env.O.CursorClose("r2", "c")
+					cursorR2 = false
+				}
+			case "commit":
+				if inTxn {
+					if cursorW {
+						env.O.CursorClose("w", "c")
+						cursorW = false
+					}
+					err := do("w", "COMMIT")
+					switch {
+					case err == nil:
+						inTxn, wrote, spilled, pendingFail = false, false, false, false
+						level = "UNLOCKED"
+						if !rawHeld {
+							// (under the third process' write lock only a transaction
+							// that wrote nothing can have committed)
+							committed = snapshot()
+						}
+					case busy(err):
+						// a reader blocks the commit: SQLite keeps the PENDING lock
+						pendingFail = true
+					default:
+						r.Harness(t, "commit: %v", err)
+					}
+				}
+			case "own-hold":
+				if ownRelease == nil {
+					rel, done, inside := make(chan struct{}), make(chan error, 1), make(chan bool, 1)
+					go func() {
+						first := true
+						err := own.Select("t", func(sqlittle.Row) {
+							if first {
+								first = false
+								inside <- true
+								<-rel
+							}
+						}, "a")
+						if first {
+							inside <- false
+						}
+						done <- err
+					}()
+					if <-inside {
+						ownRelease, ownDone = rel, done
+						classes["own-handle-parked-in-read"] = true
+					} else {
+						<-done // refused (a writer is ahead of us) or no rows: nothing is held
+					}
+				}
+			case "own-release":
+				releaseOwn()
+			case "raw-lock":
+				if !rawHeld {
+					if pr, err := peer.Call("rawlock", path); err != nil {
+						r.Harness(t, "peer: %v", err)
+					} else if pr.Held {
+						rawHeld = true
+						classes["state:shared-range-write-locked-without-pending"] = true
+					}
+				}
+			case "raw-unlock":
+				if rawHeld {
+					peer.Call("rawunlock", "")
+					rawHeld = false
+				}
+			case "rollback":
+				if inTxn {
+					if cursorW {
+						env.O.CursorClose("w", "c")
+						cursorW = false
+					}
+					if err := do("w", "ROLLBACK"); err != nil {
+						r.Harness(t, "rollback: %v", err)
+					}
 					inTxn, wrote, spilled, pendingFail = false, false, false, false
 					level = "UNLOCKED"
-					if !rawHeld {
-						// (under the third process' write lock only a transaction
-						// that wrote nothing can have committed)
-						committed = snapshot()
-					}
-				case busy(err):
-					// a reader blocks the commit: SQLite keeps the PENDING lock
-					pendingFail = true
-				default:
-					r.Harness(t, "commit: %v", err)
 				}
 			}
-		case "own-hold":
-			if ownRelease == nil {
-				rel, done, inside := make(chan struct{}), make(chan error, 1), make(chan bool, 1)
-				go func() {
-					first := true
-					err := own.Select("t", func(sqlittle.Row) {
-						if first {
-							first = false
-							inside <- true
-							<-rel
-						}
-					}, "a")
-					if first {
-						inside <- false
-					}
-					done <- err
-				}()
-				if <-inside {
-					ownRelease, ownDone = rel, done
-					classes["own-handle-parked-in-read"] = true
-				} else {
-					<-done // refused (a writer is ahead of us) or no rows: nothing is held
-				}
+		}
+		switch st.Move {
+		case "commit-begin-write":
+			// three moves with no read of ours in between: the commit is one
+			// our handles have not seen when the next transaction is under way
+			applyMove("commit")
+			applyMove("begin-immediate")
+			applyMove("write-small")
+			if inTxn && wrote {
+				classes["read-meets-unseen-commit-and-open-transaction"] = true
 			}
-		case "own-release":
-			releaseOwn()
-		case "raw-lock":
-			if !rawHeld {
-				if pr, err := peer.Call("rawlock", path); err != nil {
-					r.Harness(t, "peer: %v", err)
-				} else if pr.Held {
-					rawHeld = true
-					classes["state:shared-range-write-locked-without-pending"] = true
-				}
-			}
-		case "raw-unlock":
-			if rawHeld {
-				peer.Call("rawunlock", "")
-				rawHeld = false
-			}
-		case "rollback":
-			if inTxn {
-				if cursorW {
-					env.O.CursorClose("w", "c")
-					cursorW = false
-				}
-				if err := do("w", "ROLLBACK"); err != nil {
-					r.Harness(t, "rollback: %v", err)
-				}
-				inTxn, wrote, spilled, pendingFail = false, false, false, false
-				level = "UNLOCKED"
-			}
+		default:
+			applyMove(st.Move)
 		}
 		history = append(history, st.Move)
 
